@@ -202,15 +202,8 @@ def run(ctx, prog):
                        'snapshot restore on that path, or there is none')
     ctx.rule('C16-D2', 'the same, entered through process() of every analysis class')
     ctx.assume('only explicit raise statements and caught allocation failures are rejection points; implicit library exceptions are not modelled')
-    from .. import inline as _inl
     from .. import universe as _uni
-    _dm = prog.need_class(*_uni.DIST_BASE)
-    for _m in ('update', 'compute'):
-        _f = _dm.methods.get(_m)
-        if _f is not None:
-            _h = _inl.inline_in_place(prog, _f, skip={'_check', '_update', '_initialize', '_compute', '_accumulate', '_initialize_accumulators'})
-            if _h:
-                ctx.note(f'{_f.key}: helpers inlined before analysis: {_h}')
+    _uni.inline_base_entry_points(ctx, prog)
     from .. import desugar
     ds = desugar.desugar_with(prog, ('scared.distinguishers', 'scared.analysis', 'scared.ttest'))
     if ds:
